@@ -25,6 +25,8 @@ import (
 
 type M = absx.M
 
+const maxU64 = ^uint64(0)
+
 // RunCfg are the constants of one run (the grids of the abstract state).
 type RunCfg struct {
 	BKeys    []string
@@ -36,6 +38,22 @@ type RunCfg struct {
 	Chans    []string
 	MaxB     int64
 	Devs     []string
+	L2Top    int64 // when > 0: L2 block numbers n >= 2 of the model stand for MaxUint64 - (L2Top - n), so that the model's top value is the largest number the chain can store
+}
+
+// l2c / l2a: the order-preserving map between the model's L2 block numbers and the numbers sent to the chain (see RunCfg.L2Top).
+func (ch *Chain) l2c(n int64) uint64 {
+	if ch.Cfg.L2Top <= 0 || n < 2 || n > ch.Cfg.L2Top {
+		return uint64(n)
+	}
+	return maxU64 - uint64(ch.Cfg.L2Top-n)
+}
+
+func (ch *Chain) l2a(v uint64) int64 {
+	if ch.Cfg.L2Top > 0 && v > maxU64-uint64(ch.Cfg.L2Top) {
+		return ch.Cfg.L2Top - int64(maxU64-v)
+	}
+	return int64(v)
 }
 
 func DefaultRunCfg() RunCfg {
@@ -264,7 +282,7 @@ func (ch *Chain) Exec(e M) Outcome {
 	updEvent := map[string]string{"UpdateProposer": ophosttypes.EventTypeUpdateProposer, "UpdateChallenger": ophosttypes.EventTypeUpdateChallenger,
 		"UpdateBatchInfo": ophosttypes.EventTypeUpdateBatchInfo, "UpdateMetadata": ophosttypes.EventTypeUpdateMetadata}
 	updResp := func(idx, l2bn uint64) M {
-		return M{"idx": int64(idx), "l2bn": int64(l2bn), "evt": ch.eventRec(lastEvents, updEvent[ty])}
+		return M{"idx": int64(idx), "l2bn": ch.l2a(l2bn), "evt": ch.eventRec(lastEvents, updEvent[ty])}
 	}
 
 	switch ty {
@@ -287,7 +305,7 @@ func (ch *Chain) Exec(e M) Outcome {
 		if absx.Str(e["bad"]) == "rootlen" {
 			root = root[:31]
 		}
-		r := deliver(&ophosttypes.MsgProposeOutput{Proposer: signer, BridgeId: b(), OutputIndex: uint64(absx.Int(e["idx"])), L2BlockNumber: uint64(absx.Int(e["l2bn"])), OutputRoot: root})
+		r := deliver(&ophosttypes.MsgProposeOutput{Proposer: signer, BridgeId: b(), OutputIndex: uint64(absx.Int(e["idx"])), L2BlockNumber: ch.l2c(absx.Int(e["l2bn"])), OutputRoot: root})
 		if !r.OK {
 			return fail(r)
 		}
@@ -477,7 +495,13 @@ func (ch *Chain) eventRec(evs []abci.Event, ty string) M {
 			continue
 		}
 		switch k {
-		case "bridge", "idx", "l2bn", "fidx", "fl2bn":
+		case "l2bn", "fl2bn":
+			if n, err := strconv.ParseUint(a.Value, 10, 64); err == nil {
+				out[k] = ch.l2a(n)
+			} else {
+				out[k] = "?" + a.Value
+			}
+		case "bridge", "idx", "fidx":
 			out[k] = atoi(a.Value)
 		case "proposer", "challenger", "creator", "submitter":
 			out[k] = c.AddrName(a.Value)
@@ -546,7 +570,7 @@ func (ch *Chain) outRec(o ophosttypes.Output) M {
 	if o.IsEmpty() {
 		return M{"root": M{"v": int64(0), "t": "", "h": ""}, "l2bn": int64(0), "t": int64(0), "h": int64(0), "empty": true}
 	}
-	return M{"root": ch.C.RootName(o.OutputRoot), "l2bn": int64(o.L2BlockNumber), "t": TimeTick(o.L1BlockTime), "h": int64(o.L1BlockNumber), "empty": false}
+	return M{"root": ch.C.RootName(o.OutputRoot), "l2bn": ch.l2a(o.L2BlockNumber), "t": TimeTick(o.L1BlockTime), "h": int64(o.L1BlockNumber), "empty": false}
 }
 
 // Project reads the abstract state record out of the real stores.
@@ -798,6 +822,9 @@ func ApplyMeta(cfg *RunCfg, c *Conc, meta M) {
 	if v, ok := meta["feeDenom"]; ok {
 		cfg.FeeDenom = absx.Str(v)
 	}
+	if v, ok := meta["l2top"]; ok {
+		cfg.L2Top = absx.Int(v)
+	}
 	if v, ok := meta["trees"]; ok {
 		for id, ls := range absx.Map(v) {
 			var leaves []M
@@ -848,13 +875,13 @@ func (ch *Chain) query(e M) Outcome {
 		if err != nil {
 			return fail(err)
 		}
-		return Outcome{OK: true, Resp: M{"idx": int64(r.OutputIndex), "l2bn": int64(r.OutputProposal.L2BlockNumber)}}
+		return Outcome{OK: true, Resp: M{"idx": int64(r.OutputIndex), "l2bn": ch.l2a(r.OutputProposal.L2BlockNumber)}}
 	case "OutputProposal":
 		r, err := q.OutputProposal(ctx, &ophosttypes.QueryOutputProposalRequest{BridgeId: b(), OutputIndex: uint64(absx.Int(e["idx"]))})
 		if err != nil {
 			return fail(err)
 		}
-		return Outcome{OK: true, Resp: M{"l2bn": int64(r.OutputProposal.L2BlockNumber), "t": TimeTick(r.OutputProposal.L1BlockTime), "root": c.RootName(r.OutputProposal.OutputRoot)}}
+		return Outcome{OK: true, Resp: M{"l2bn": ch.l2a(r.OutputProposal.L2BlockNumber), "t": TimeTick(r.OutputProposal.L1BlockTime), "root": c.RootName(r.OutputProposal.OutputRoot)}}
 	case "OutputProposals":
 		r, err := q.OutputProposals(ctx, &ophosttypes.QueryOutputProposalsRequest{BridgeId: b(), Pagination: page()})
 		if err != nil {
